@@ -471,4 +471,4 @@ MANIFEST_TEXT["C19"] = dict(
     note=_CAP_NOTE + "Assumed, not modelled: RwLock atomicity of callbacks, memory model, OS scheduling; the Registry's thread_local slot recycling is avoided by keeping harness threads alive.",
     technique="Lean 4 proof (registry reference-count invariant over all interleavings, simulation against a declarative reference) + forced-schedule correspondence + free-running per-thread projection oracle")
 
-PROPS["C02"]["extra_modules"] = ["TT.Props.C02Quiescence"]
+PROPS["C02"]["extra_modules"] = ["TT.Props.C02Quiescence", "TT.Props.C02GuestLevel"]
